@@ -7,12 +7,12 @@ The receiver is described by two parallel lists
 
     objs   the dict objects the ListOfDicts holds (identity matters)
     m      plain-dict copies of their contents with the SAME alias structure
-           (m[i] is m[j] iff objs[i] is objs[j]); editing operations edit m
+           (m[i] is m[j] iff objs[i] is objs[j])
 
 and an expectation is a list of alternatives, each a list of entries
 `(obj_or_None, contents)`: `obj` is the object that must sit at that position
-(the method hands the item on) or None (the method builds a new item; only the
-contents are compared). More than one alternative / `may_raise` are used only
+(the method hands the item on) or None (the method builds a new item, or is one
+of the six editing methods; only the contents are compared). More than one alternative / `may_raise` are used only
 where the property statement is silent (DESIGN 3.3).
 """
 
@@ -116,6 +116,77 @@ def applicable(op, m):
         return True
     if o in ("head", "tail"):
         return op["n"] is None or op["n"] >= 0
+    if o in EDIT_OPS and not _edit_well_defined(op, m):
+        return False
+    return True
+
+
+# ---------------------------------------------------------------------------
+# the six editing operations, item by item
+
+EDIT_OPS = ("select", "unselect", "rename", "modify", "modify_if", "fill")
+
+
+def edit_context(op, m):
+    """What an editing operation reads from the whole list (only fill_missing_keys() does)."""
+    if op["op"] == "fill":
+        kv = [(k, v) for k, v in op["kv"]]
+        if not kv:
+            allkeys = []
+            for c in m:
+                for k in c:
+                    if k not in allkeys:
+                        allkeys.append(k)
+            kv = [(k, None) for k in allkeys]
+        return kv
+    return None
+
+
+def edit_item(op, c, ctx):
+    """Contents of an item with contents c after the editing operation: only the named keys change."""
+    o = op["op"]
+    if o == "select":
+        return {k: v for k, v in c.items() if k in op["keys"]}
+    if o == "unselect":
+        return {k: v for k, v in c.items() if k not in op["keys"]}
+    if o == "rename":
+        ren = {frm: to for to, frm in op["pairs"]}
+        return {ren.get(k, k): v for k, v in c.items()}
+    if o == "modify" or o == "modify_if":
+        new = dict(c)
+        if o == "modify" or PREDS[op["pred"]](c):
+            for key, fn in op["set"]:
+                new[key] = REF_FUNCS[fn](new)
+        return new
+    if o == "fill":
+        new = dict(c)
+        for k, v in ctx:
+            if k not in new:
+                new[k] = v
+        return new
+    raise ValueError(o)
+
+
+def _edit_well_defined(op, m):
+    """
+    When the same dict object sits at two positions, an in-place edit applies
+    twice to it and a rebuilding edit once. The statement does not say which
+    methods edit in place, so a (list, operation) pair is explored only if
+    both readings agree: editing an aliased item twice equals editing it once.
+    """
+    seen = set()
+    aliased = []
+    for c in m:
+        if id(c) in seen:
+            aliased.append(c)
+        seen.add(id(c))
+    if not aliased:
+        return True
+    ctx = edit_context(op, m)
+    for c in aliased:
+        once = edit_item(op, c, ctx)
+        if edit_item(op, once, ctx) != once:
+            return False
     return True
 
 
@@ -165,7 +236,7 @@ def _stable_sort(pairs, keys):
 
 
 def reference(op, objs, m, args, peek):
-    """Expectation for `op` on the receiver (objs, m). Editing operations edit m."""
+    """Expectation for `op` on the receiver (objs, m)."""
     o = op["op"]
     pairs = list(zip(objs, m))
     n = len(pairs)
@@ -207,49 +278,9 @@ def reference(op, objs, m, args, peek):
             alts.append(_first_per_key(pairs, lambda c: c))
         return Expect(alts)
 
-    if o == "select":
-        keys = list(op["keys"])
-        return Expect([[(None, {k: v for k, v in c.items() if k in keys}) for c in m]])
-
-    if o == "unselect":
-        for c in m:
-            for k in op["keys"]:
-                if k in c:
-                    del c[k]
-        return Expect([[(None, c) for c in m]])
-
-    if o == "rename":
-        ren = {frm: to for to, frm in op["pairs"]}
-        return Expect([[(None, {ren.get(k, k): v for k, v in c.items()}) for c in m]])
-
-    if o == "modify":
-        for c in m:
-            for key, fn in op["set"]:
-                c[key] = REF_FUNCS[fn](c)
-        return Expect([[(None, c) for c in m]])
-
-    if o == "modify_if":
-        pred = PREDS[op["pred"]]
-        for c in m:
-            if pred(c):
-                for key, fn in op["set"]:
-                    c[key] = REF_FUNCS[fn](c)
-        return Expect([[(None, c) for c in m]])
-
-    if o == "fill":
-        kv = [(k, v) for k, v in op["kv"]]
-        if not kv:
-            allkeys = []
-            for c in m:
-                for k in c:
-                    if k not in allkeys:
-                        allkeys.append(k)
-            kv = [(k, None) for k in allkeys]
-        for c in m:
-            for k, v in kv:
-                if k not in c:
-                    c[k] = v
-        return Expect([[(None, c) for c in m]])
+    if o in EDIT_OPS:
+        ctx = edit_context(op, m)
+        return Expect([[(None, edit_item(op, c, ctx)) for c in m]])
 
     if o == "append":
         ref = list(pairs)
